@@ -44,13 +44,16 @@ func runC04(rc *RunCtx) {
 			gs.TokenPairList = append(gs.TokenPairList,
 				ct.TokenPair{RemoteDomain: 2, RemoteToken: Token(0), LocalToken: "uUSDC"},
 				ct.TokenPair{RemoteDomain: 2, RemoteToken: Token(1), LocalToken: "UUSDC"},
-				ct.TokenPair{RemoteDomain: 3, RemoteToken: Token(0), LocalToken: "ueure"})
+				ct.TokenPair{RemoteDomain: 3, RemoteToken: Token(0), LocalToken: "ueure"},
+				ct.TokenPair{RemoteDomain: 3, RemoteToken: Token(1), LocalToken: ""}) // a pair imported without a local token
 		})
 		if err != nil {
 			rc.Cov.Inconclusive(err.Error())
 			continue
 		}
 		nonce := uint64(1 + rc.Shard*100000)
+		// ... and one linked by transaction with an empty local token (the handler does not look at it)
+		e.Exec(Tx{Msgs: msgs1(&ct.MsgLinkTokenPair{From: e.M.TC, RemoteDomain: 5, RemoteToken: Token(0), LocalToken: ""}), Note: "C04 link with an empty local token"})
 		for rep := 0; rep < rc.Pick(2, 8); rep++ {
 			for ai, ac := range AmountClasses {
 				if !double && ac.V.BitLen() > 129 {
@@ -63,7 +66,7 @@ func runC04(rc *RunCtx) {
 						d   uint32
 						tok int
 						sp  string
-					}{{0, 0, "uusdc"}, {2, 0, "uUSDC"}, {2, 1, "UUSDC"}, {3, 0, "ueure"}} {
+					}{{0, 0, "uusdc"}, {2, 0, "uUSDC"}, {2, 1, "UUSDC"}, {3, 0, "ueure"}, {3, 1, "(empty,genesis)"}, {5, 0, "(empty,linked)"}} {
 						nonce++
 						submitter := Acct((ai + ci + di) % NAccounts)
 						recip := c04Recipient(cls, ai+ci+rep)
@@ -431,14 +434,31 @@ func runC08(rc *RunCtx) {
 		}
 	}
 	// (3) max body size boundary
-	for bi, mb := range []*uint64{nil, u64p(0), u64p(131), u64p(132), u64p(133), u64p(8000)} {
+	for bi, mb := range []*uint64{nil, u64p(0), u64p(131), u64p(132), u64p(133), u64p(8000), u64p(1<<31 - 1), u64p(1 << 31), u64p(1 << 32), u64p(1 << 40),
+		u64p(1<<63 - 1), u64p(1 << 63), u64p(1<<63 + 1), u64p(^uint64(0))} {
 		if bi%rc.NShards != rc.Shard {
 			continue
 		}
-		e, err := c08Engine(rc, nil, 0, mb, true, false, "")
+		gmb := mb
+		if bi%2 == 1 && mb != nil {
+			gmb = u64p(8000) // installed by the owner's transaction instead of genesis
+		}
+		e, err := c08Engine(rc, nil, 0, gmb, true, false, "")
 		if err != nil {
 			continue
 		}
+		if gmb != mb {
+			if rep := e.Exec(Tx{Msgs: msgs1(&ct.MsgUpdateMaxMessageBodySize{From: e.M.Owner, MessageSize: *mb}), Note: "C08 body size by transaction"}); !rep.OK {
+				rc.Cov.Inconclusive("could not set the max body size through a transaction")
+				continue
+			}
+		}
+		rc.Cov.Cell("C08_bodysize_values", fmt.Sprintf("%v", func() interface{} {
+			if mb == nil {
+				return "unset"
+			}
+			return *mb
+		}()))
 		mask := uint32(0)
 		if mb != nil && *mb < 132 {
 			mask = P7BodySize
